@@ -177,7 +177,8 @@ func verifC10DigestAll(errs []*Error) string {
 // detected per file) must give each file exactly the diagnostics it gets when
 // linted alone, and the configurations are not written.
 func HarnessC10MultiFile() {
-	orders := [][]int{{0, 1, 2}, {1, 0, 2}, {2, 1, 0}, {1, 2, 0}, {0, 1}, {1, 0}}
+	// file 3 belongs to no repository
+	orders := [][]int{{0, 1, 2}, {1, 0, 2}, {2, 1, 0}, {1, 2, 0}, {0, 1}, {1, 0}, {3, 0, 1}, {0, 3, 2}}
 	if verifIsNative() {
 		// native replay: a real directory tree with two repositories and real configuration files
 		lab := verifSymString("label", 2)
@@ -191,9 +192,9 @@ func HarnessC10MultiFile() {
 	verifC10Cfg = map[string]*Config{"/r": cfgR, "/s": cfgS}
 	lab := verifSymString("label", 2)
 	verifAssumeNote(verifAnd(verifAnd('a' <= lab[0], lab[0] <= 'z'), verifAnd('a' <= lab[1], lab[1] <= 'z')), "C10 multi-file: the runner label is two lower-case letters")
-	paths := []string{"/r/.github/workflows/a.yml", "/s/.github/workflows/b.yml", "/r/.github/workflows/c.yml"}
-	verifC10Files = map[string]string{paths[0]: "A", paths[1]: "B", paths[2]: "C"}
-	verifC10Docs = map[string]*yaml.Node{"A": verifC10Workflow(lab), "B": verifC10Workflow(lab), "C": verifC10Workflow("lr")}
+	paths := []string{"/r/.github/workflows/a.yml", "/s/.github/workflows/b.yml", "/r/.github/workflows/c.yml", "/o/w.yml"}
+	verifC10Files = map[string]string{paths[0]: "A", paths[1]: "B", paths[2]: "C", paths[3]: "D"}
+	verifC10Docs = map[string]*yaml.Node{"A": verifC10Workflow(lab), "B": verifC10Workflow(lab), "C": verifC10Workflow("lr"), "D": verifC10Workflow("lr")}
 	verifOverride("Parse", verifC10Parse)
 	verifSetCwd("/")
 	verifOverride("os.ReadFile", verifC10ReadFile)
@@ -201,7 +202,7 @@ func HarnessC10MultiFile() {
 	verifOverride("loadRepoConfig", verifC10RepoConfig)
 	single := make([]string, len(paths))
 	for k, p := range paths {
-		l := &Linter{projects: NewProjects(), cwd: "", out: nil}
+		l := verifLinter("", "", "")
 		errs, err := l.LintFile(p, nil)
 		verifCheck(err == nil, "lint-failed")
 		single[k] = verifC10Digest(errs, p)
@@ -213,8 +214,17 @@ func HarnessC10MultiFile() {
 	for _, k := range ord {
 		args = append(args, paths[k])
 	}
-	l := &Linter{projects: NewProjects(), cwd: "", out: nil}
+	l := verifLinter("", "", "")
+	// degree of parallelism: the per-file goroutines run at once in spawn order, or as
+	// wholes after the last one was started — in spawn order or in reverse
+	switch verifChoose("goroutines", 3) {
+	case 1:
+		verifGoOrder([]int{0, 1, 2})
+	case 2:
+		verifGoOrder([]int{2, 1, 0})
+	}
 	errs, err := l.LintFiles(args, nil)
+	verifGoOrder(nil)
 	verifCheck(err == nil, "lint-failed")
 	verifReach("linted")
 	for _, k := range ord {
